@@ -19,7 +19,7 @@ RULE = ('case = (container tree over list/tuple/set/frozenset/dict whose leaves 
         'judged by a walk driven by the two syntax trees with a level band per node (a list / dict / tuple literal passed '
         'as a positional argument may or may not count as a container of its own): full form required when the highest '
         'count is < d, placeholder of the node\'s own type required when the lowest count is >= d, otherwise same node '
-        'type / callee / keywords / arity and recurse; identical text for d above the highest count. '
+        'type / callee / keywords / arity and recurse; identical text for d above the highest count. Fixed cases include calls whose sole positional argument is an instance of a subclass of list / dict / tuple (OrderedDict, defaultdict, Counter, namedtuple, user subclasses), which counts as a level. '
         'non-trivial = 1 <= d <= height; distinct by case hash')
 ASSUMPTIONS = ['bool/None/Ellipsis leaves are not generated (not uniquely identifiable, no placeholder form)',
                'ast.parse of CPython defines the syntax tree']
